@@ -288,6 +288,19 @@ impl Sim {
                     self.stats.bump("failed_statements");
                     self.stats.bump("failed_statements_in_session");
                 }
+                let lost_conflict = exp == Expect::Fail("write conflict") || (exp == Expect::Any && matches!(out, Out::Err(ErrClass::Conflict, _)));
+                if lost_conflict && res.is_ok() {
+                    // a transaction that lost a write-write conflict has to roll back (the statement may
+                    // have marked some rows before it met the conflicting one): the client does so at once
+                    self.stats.bump("write_conflicts_in_sessions");
+                    self.txmap.remove(k);
+                    self.began_at.remove(k);
+                    let out = self.eng.abort(*k);
+                    self.model.abort(tx);
+                    if let Out::Err(ErrClass::Internal, m) = &out {
+                        return Err(self.viol("O-res", i, format!("ROLLBACK after a write-write conflict failed internally: {m}")));
+                    }
+                }
                 res
             }
             Event::Commit(k) if self.zombies.contains(k) => {
